@@ -149,32 +149,31 @@ pub fn pos_of(b: &Board) -> Pos {
 /// real writer has been applied once.
 #[cfg(cozy_chess_verif)]
 pub fn keys() -> Keys {
-    let empty = || {
-        Board::verif_from_raw([0; 6], [0; 2], Color::White, [CastleRights::EMPTY; 2], None, 0, 0, 0, 0, 1)
-    };
+    // one empty board, cloned for every key (building it 793 times is what made symbolic execution slow)
+    let e = Board::verif_from_raw([0; 6], [0; 2], Color::White, [CastleRights::EMPTY; 2], None, 0, 0, 0, 0, 1);
     let mut k = Keys { piece: [[[0; 64]; 6]; 2], castle: [[[0; 8]; 2]; 2], ep: [0; 8], side: 0 };
     for c in 0..2 {
         for p in 0..6 {
             for s in 0..64 {
-                let mut b = empty();
+                let mut b = e.clone();
                 b.verif_xor_square(piece(p as u8), color(c as u8), sq(s as u8));
                 k.piece[c][p][s] = b.hash();
             }
         }
         for w in 0..2 {
             for f in 0..8 {
-                let mut b = empty();
+                let mut b = e.clone();
                 b.verif_set_castle_right(color(c as u8), w == 0, Some(file(f as u8)));
                 k.castle[c][w][f] = b.hash();
             }
         }
     }
     for f in 0..8 {
-        let mut b = empty();
+        let mut b = e.clone();
         b.verif_set_en_passant(Some(file(f as u8)));
         k.ep[f] = b.hash();
     }
-    let mut b = empty();
+    let mut b = e.clone();
     b.verif_toggle_side_to_move();
     k.side = b.hash();
     k
